@@ -275,7 +275,7 @@ func checkC14(c *Ctx) {
 	}
 
 	// ---- abort continues (K1+K4)
-	r.Rule("C14.abort-continues", "K4", "abort reaches Display.AcceptLine / History.Accept only when neither AutoCompleting() nor IsInserting(); the cancelling branch calls ResetForce and returns", 3)
+	r.Rule("C14.abort-continues", "K4", "abort reaches Display.AcceptLine / History.Accept only when neither AutoCompleting() nor IsInserting(), and the local keymap is not menu-select; the cancelling branch calls ResetForce and returns", 5)
 	{
 		bf := blockFacts(AB)
 		for _, call := range callsTo(AB, false, fnAcceptDisp, fnSourcesAccept) {
@@ -290,6 +290,23 @@ func checkC14(c *Ctx) {
 			}
 			r.Check(fa && fi, "C14.abort-continues", fmt.Sprintf("%s:%s-guard", fnName(AB), calleeName(call)), p.IPos(call), "under !AutoCompleting && !IsInserting",
 				"abort can accept/return the line while a completion is active: Ctrl-C on a menu ends the Readline call instead of only cancelling the menu")
+		}
+		// … nor while the menu-select keymap is the local one (a menu open with nothing inserted yet)
+		for _, call := range callsTo(AB, false, fnAcceptDisp, fnSourcesAccept) {
+			fm := false
+			for fc := range factsAt(bf, call) {
+				rel, ok := relOf(fc.Cond, fc.Val)
+				if !ok || rel.Op != token.NEQ {
+					continue
+				}
+				isLocal := dependsOn(rel.X, func(v ssa.Value) bool { return isCallNamed(v, "(*keymap.Engine).Local") })
+				s, isS := constString(stripConv(rel.Y))
+				if isLocal && isS && s == "menu-select" {
+					fm = true
+				}
+			}
+			r.Check(fm, "C14.abort-continues", fmt.Sprintf("%s:%s-menu-guard", fnName(AB), calleeName(call)), p.IPos(call), "under Local() != menu-select",
+				"abort can accept/return the line while the menu-select keymap is active (a menu open with no candidate inserted: possible-completions, or the first Tab with menu-complete-display-prefix): Ctrl-C ends the Readline call instead of closing the menu")
 		}
 		// the true edges lead to a block that calls ResetForce and returns without Accept
 		okCancel := true
